@@ -12,11 +12,11 @@ def check(repo, rep, tier):
                        'code reads the value a predicate yields; no exception handler sits between a predicate and the '
                        'consumer of the query. That a particular Python predicate has the same solutions as a Prolog one is '
                        'not decided.')
-    rq.rule_key_templates(em, rep, 'C20.U1')
-    rq.rule_values_never_inspected(em, rep, 'C20.U2')
-    rq.rule_exception_transparent(em, rep, 'C20.U3')
-    rq.rule_argument_order(em, rep, 'C20.U4')
-    rx.rule_derived_tables_follow(em, rep, 'C20.U5')
-    rx.rule_lookups_agree(em, rep, 'C20.U6')
+    rep.run(rq.rule_key_templates, em, rep, 'C20.U1')
+    rep.run(rq.rule_values_never_inspected, em, rep, 'C20.U2')
+    rep.run(rq.rule_exception_transparent, em, rep, 'C20.U3')
+    rep.run(rq.rule_argument_order, em, rep, 'C20.U4')
+    rep.run(rx.rule_derived_tables_follow, em, rep, 'C20.U5')
+    rep.run(rx.rule_lookups_agree, em, rep, 'C20.U6')
     from .. import rules_state as rs
-    rs.rule_atoms_unify_by_name(em, rep, 'C20.U7')
+    rep.run(rs.rule_atoms_unify_by_name, em, rep, 'C20.U7')
